@@ -5,6 +5,9 @@ Requests (see exec/src/bin/c20.rs, lean/Compute/Drv/C20.lean):
   rq_p  form var alpha ls n x1 y1 … xn yn        -> = k1 … kn
   rbf_m kind var ls rx cx <rx*cx> ry cy <ry*cy>  -> = nrows ncols <matrix data> <scalar forward at every (x_i, y_j)>
   rq_m  kind var alpha ls rx cx <..> ry cy <..>  -> = nrows ncols <matrix data> <scalar forward at every (x_i, y_j)>
+  rbf_g kind var ls r c <r*c> idx val            -> the `rbf_m` reply for the point set mutated IN PLACE at flat index idx
+  rq_g  kind var alpha ls r c <r*c> idx val         (x = y), after a first call on the unmutated object (executor only;
+                                                     the model is a pure function: model_line = the equivalent *_m line)
 form: 0 = f64, 1 = &f64;  kind: 0 = Vector, 1 = &Vector, 2 = Matrix, 3 = &Matrix (a Vector has rx = 1).
 All forms/kinds of one kernel are instantiations of one macro body, hence share one model.
 """
@@ -32,7 +35,10 @@ RULE = ("RBF and RQ kernels, var / length scale / alpha log-uniform in (1e-2, 1e
         "of distances from 1 ulp to 40 length scales); matrix form on point sets of 1..60 points (every size, "
         "chunk-of-8 boundaries emphasised) passed as Vector, &Vector, Matrix, &Matrix (all factorisations r x c of "
         "the point count), Gram (x = y) and cross (x != y) calls, clusters at offsets 0..1e3 with spreads 0.01..30 "
-        "length scales; non-trivial = distinct (op, form/kind, sizes, parameter decade) class")
+        "length scales; CALL-SEQUENCE stratum: consecutive matrix-form calls (one executor thread) whose second input is "
+        "a permutation / two-entry swap of the first, a different set of doubled or all-equal points, the same points "
+        "with other hyper-parameters, one coordinate moved by one ulp, x and y exchanged, the same Vector/Matrix object "
+        "mutated in place (rbf_g/rq_g), RBF and RQ interleaved - for each kernel and argument kind; non-trivial = distinct (op, form/kind, sizes, parameter decade) class")
 EXHAUSTIVE = {"quick": False, "thorough": False}
 NOT_PROVED = [
     "floating-point rounding: the theorems are about exact (real) arithmetic; at f64 the scalar form is checked by the "
@@ -83,9 +89,33 @@ def mk_mat(op, kind, params, rx, cx, dx, ry, cy, dy):
                                            rx, cx, " ".join(f2h(v) for v in dx), ry, cy, " ".join(f2h(v) for v in dy))
 
 
+def canon(line):
+    """`*_g` (evaluate, mutate in place, evaluate again) -> the `*_m` line of the mutated point set (x = y)."""
+    t = line.split()
+    if not t or not t[0].endswith("_g"):
+        return line
+    i = 5 if t[0].startswith("rq") else 4
+    r, c = int(t[i]), int(t[i + 1])
+    d = t[i + 2:i + 2 + r * c]
+    idx, val = int(t[i + 2 + r * c]), t[i + 3 + r * c]
+    d = list(d)
+    d[idx] = val
+    pts = "%d %d %s" % (r, c, " ".join(d))
+    return " ".join([t[0][:-2] + "_m"] + t[1:i] + [pts, pts])
+
+
+def model_line(line):
+    return canon(line)
+
+
+def mk_mut(op, kind, params, r, c, d, idx, val):
+    return "%s %d %s %d %d %s %d %s" % (op, kind, " ".join(f2h(p) for p in params), r, c,
+                                        " ".join(f2h(v) for v in d), idx, f2h(val))
+
+
 def parse(line):
     """-> dict(op, rq, fk, var, alpha, ls, and pairs | (rx,cx,dx,ry,cy,dy))"""
-    t = line.split()
+    t = canon(line).split()
     op = t[0]
     rq = op.startswith("rq")
     fk = int(t[1])
@@ -294,7 +324,136 @@ def gen(rng, tier):
             cover["max_points"] = max(cover["max_points"], n, m)
             sizes.add((n, m))
     cover["sizes_seen"] = len(sizes)
+    gen_sequences(rng.fork("sequences"), tier, lines, cover)
     return lines, cover
+
+
+def ulp_step(x, rng):
+    return math.nextafter(x, rng.choice([-2e3, 2e3]))
+
+
+SEQ_SCENARIOS = ["perm", "swap2", "dups", "params", "ulp", "xyswap", "mutate", "interleave"]
+
+
+def gen_sequences(rng, tier, lines, cover):
+    """CALL-SEQUENCE stratum.  The executor evaluates the request lines one after the other on one thread, so
+    consecutive lines are consecutive calls: hidden state carried from one call to the next (memo / cache keyed by a
+    fingerprint of the inputs, reused buffers) shows up in the second reply, which is judged on its own by the oracle
+    (matrix form = scalar form bit for bit, range, symmetry, PSD) and by the bit-exact tie to the stateless model."""
+    reps = 10 if tier == "thorough" else 3
+    cover["sequence_pairs"] = {k: 0 for k in SEQ_SCENARIOS}
+    cover["sequence_lines"] = 0
+
+    def emit(rq, kind, params, px, py, shape_x=None, shape_y=None):
+        rx, cx = shape_x or shape_for(rng, kind, len(px))
+        ry, cy = shape_y or ((rx, cx) if len(py) == len(px) else shape_for(rng, kind, len(py)))
+        lines.append(mk_mat("rq_m" if rq else "rbf_m", kind, params, rx, cx, px, ry, cy, py))
+        cover["sequence_lines"] += 1
+        return (rx, cx), (ry, cy)
+
+    def points(n, ls):
+        mode = rng.randint(0, 2)
+        if mode == 0:     # small "nice" values (exact in binary: fingerprints of sets collide more easily)
+            return [rng.choice([-4.0, -3.5, -2.0, -1.0, 0.0, 0.5, 1.0, 1.5, 2.0, 4.0, 5.0]) * rng.choice([1.0, ls]) + 0.25 * i
+                    for i in range(n)]
+        pts, _ = gen_points(rng, ls, n)
+        return pts
+
+    for rep_i in range(reps):
+        for rq in (False, True):
+            for kind in range(4):
+                for sc in SEQ_SCENARIOS:
+                    params = gen_params(rng, rq)
+                    ls = params[-1]
+                    n = rng.choice([2, 3, 4, 5, 6, 8, 9, 12, 16, 17])
+                    kind2 = kind if rng.chance(0.7) else rng.randint(0, 3)
+                    gram = rng.chance(0.6)
+                    x = points(n, ls)
+                    t = list(x) if gram else points(rng.choice([n, n, rng.randint(1, 12)]), ls)
+                    first = lambda: emit(rq, kind, params, x, list(x) if gram else t)   # noqa: E731
+                    second = lambda x2, prm=None, r=None: emit(rq if r is None else r, kind2, prm or params, x2,   # noqa: E731
+                                                               list(x2) if gram else t)
+                    if sc == "perm":
+                        first()
+                        x2 = list(x)
+                        how = rng.randint(0, 2)
+                        if how == 0:
+                            rng.shuffle(x2)
+                        elif how == 1:
+                            x2.reverse()
+                        else:
+                            x2.sort()
+                        if x2 == x:
+                            x2 = x2[1:] + x2[:1]
+                        second(x2)
+                        if not gram and rng.chance(0.5):      # K(t, x) after K(x', t): roles exchanged as well
+                            emit(rq, kind2, params, t, x2)
+                    elif sc == "swap2":
+                        first()
+                        x2 = list(x)
+                        a, b = rng.randint(0, n - 1), rng.randint(0, n - 1)
+                        if a == b:
+                            b = (a + 1) % n
+                        x2[a], x2[b] = x2[b], x2[a]
+                        second(x2)
+                    elif sc == "dups":
+                        h = max(1, n // 2)
+                        if rng.chance(0.5):                    # every point twice: [a,a,b,b,..] then [c,c,d,d,..]
+                            p1, p2 = points(h, ls), points(h, ls)
+                            x1 = [v for v in p1 for _ in (0, 1)]
+                            x2 = [v + 0.5 * ls for v in p2 for _ in (0, 1)]
+                            if rng.chance(0.5):
+                                rng.shuffle(x2)
+                        else:                                  # all points equal
+                            x1 = [x[0]] * (2 * h)
+                            x2 = [clip(x[0] + ls)] * (2 * h)
+                        emit(rq, kind, params, x1, list(x1))
+                        emit(rq, kind2, params, x2, list(x2))
+                        emit(rq, kind, params, x1, list(x2))   # and the cross call of the two
+                    elif sc == "params":
+                        first()
+                        p2 = gen_params(rng, rq)
+                        if rng.chance(0.5):                    # only one hyper-parameter changes
+                            j = rng.randint(0, len(params) - 1)
+                            p2 = list(params)
+                            p2[j] = gen_param(rng)
+                        second(list(x), prm=p2)
+                        second(list(x))                        # and back to the first parameters
+                    elif sc == "ulp":
+                        first()
+                        x2 = list(x)
+                        j = rng.randint(0, n - 1)
+                        x2[j] = ulp_step(x2[j], rng)
+                        second(x2)
+                    elif sc == "xyswap":
+                        m = rng.choice([n, n, rng.randint(1, 12)])
+                        y = points(m, ls)
+                        emit(rq, kind, params, x, y)
+                        emit(rq, kind2, params, y, x)
+                    elif sc == "mutate":
+                        r_, c_ = shape_for(rng, kind, n)
+                        j = rng.randint(0, n - 1)
+                        how = rng.randint(0, 2)
+                        if how == 0:
+                            val = x[(j + 1) % n]               # overwrite with a neighbour's value (a duplicate appears)
+                        elif how == 1:
+                            val = ulp_step(x[j], rng)
+                        else:
+                            val = clip(x[j] + ls * rng.normal())
+                        lines.append(mk_mut("rq_g" if rq else "rbf_g", kind, params, r_, c_, x, j, val))
+                        cover["sequence_lines"] += 1
+                        # in-place exchange of two entries = two mutations; the second line starts from the once-mutated set
+                        x1 = list(x)
+                        x1[j] = val
+                        lines.append(mk_mut("rq_g" if rq else "rbf_g", kind, params, r_, c_, x1, (j + 1) % n, x[j]))
+                        cover["sequence_lines"] += 1
+                    else:                                      # interleave RBF and RQ on the same inputs
+                        pb, pq = gen_params(rng, False), gen_params(rng, True)
+                        x2 = list(x)
+                        rng.shuffle(x2)
+                        for r, prm, xs in ((False, pb, x), (True, pq, x), (False, pb, x2), (True, pq, x2), (False, pb, x)):
+                            emit(r, kind if not r else kind2, prm, xs, list(xs) if gram else t)
+                    cover["sequence_pairs"][sc] += 1
 
 
 def corpus():
@@ -322,6 +481,19 @@ def corpus():
     ls.append(mk_pairs("rbf_p", 0, [one, 0.01], [(913.436, 913.4360001), (913.4360001, 913.436)]))
     # exact exponents 1/2 and 1/3 in the RQ matrix form (seed C20g: a sqrt/cbrt fast path in Vector::powf that
     # forgot the reciprocal gave var (1+z)^(+alpha): entries above var, growing with distance, != scalar form)
+    # call sequences (seed C20i: squared distances memoised under an order-insensitive XOR fingerprint): a reordered
+    # set and a different set of doubled points right after a call with the same fingerprint, every argument kind
+    for kind in range(4):
+        sh4 = (1, 4) if kind < 2 else (2, 2)
+        sh5 = (1, 5) if kind < 2 else (5, 1)
+        a5, b5 = [5.0, -3.5, 0.0, 2.0, 1.0], [1.0, 2.0, 0.0, -3.5, 5.0]
+        ls.append(mk_mat("rbf_m", kind, [one, one], sh5[0], sh5[1], a5, sh5[0], sh5[1], a5))
+        ls.append(mk_mat("rbf_m", kind, [one, one], sh5[0], sh5[1], b5, sh5[0], sh5[1], b5))
+        ls.append(mk_mat("rbf_m", kind, [one, two_], sh4[0], sh4[1], [1.0, 1.0, 4.0, 4.0], sh4[0], sh4[1], [1.0, 1.0, 4.0, 4.0]))
+        ls.append(mk_mat("rbf_m", kind, [one, two_], sh4[0], sh4[1], [-2.0, -2.0, 0.5, 0.5], sh4[0], sh4[1], [-2.0, -2.0, 0.5, 0.5]))
+        ls.append(mk_mat("rq_m", kind, [one, one, two_], sh4[0], sh4[1], [1.0, 1.0, 4.0, 4.0], sh4[0], sh4[1], [1.0, 1.0, 4.0, 4.0]))
+        ls.append(mk_mat("rq_m", kind, [one, one, two_], sh4[0], sh4[1], [-2.0, -2.0, 0.5, 0.5], sh4[0], sh4[1], [-2.0, -2.0, 0.5, 0.5]))
+        ls.append(mk_mut("rbf_g", kind, [one, one], sh5[0], sh5[1], a5, 0, -3.5))
     for kind, a in ((0, 0.5), (1, 1.0 / 3.0), (2, 0.5), (3, 1.0 / 3.0)):
         ls.append(mk_mat("rq_m", kind, [2.5, a, one], 1 if kind < 2 else 2, 4 if kind < 2 else 2, [-4.0, 1.5, 0.0, 2.0],
                          1 if kind < 2 else 2, 4 if kind < 2 else 2, [-4.0, 1.5, 0.0, 2.0]))
@@ -523,12 +695,13 @@ def oracle(lines, impl):
 def nontrivial(line, reply):
     if not reply.startswith("="):
         return None
-    t = line.split()
-    op = t[0]
-    rq = op.startswith("rq")
+    seq = "g " if line.startswith(("rbf_g", "rq_g")) else ""
+    t = canon(line).split()
+    op = seq + t[0]
+    rq = t[0].startswith("rq")
     dec = tuple(int(math.floor(math.log10(h2f(s)))) for s in t[2:(5 if rq else 4)])
     i = 5 if rq else 4
-    if op.endswith("_p"):
+    if t[0].endswith("_p"):
         return "%s %s %s n=%s" % (op, t[1], dec, t[i])
     rx, cx = int(t[i]), int(t[i + 1])
     j = i + 2 + rx * cx
@@ -538,3 +711,8 @@ def nontrivial(line, reply):
 # into lean/Compute/Generated/SrcC20.lean and proved equal to the hand model in Props/SrcTieC20.lean)
 from . import srctie
 srctie.wire(globals(), 'C20')
+
+# --- deep theorems (Rounding5: float-level bounds in the standard model, wired by the lead)
+PROOF_MODULES = PROOF_MODULES + [m for m in ['Compute.Lemmas.LogRounding', 'Compute.Lemmas.Rounding5', 'Compute.Props.Rounding5'] if m not in PROOF_MODULES]
+REQUIRED_THEOREMS = REQUIRED_THEOREMS + ['Cv.Rounding5.rbf_near', 'Cv.Rounding5.rbf_error', 'Cv.Rounding5.rbf_error_explicit', 'Cv.Rounding5.rbf_pos', 'Cv.Rounding5.rq_near', 'Cv.Rounding5.rq_error', 'Cv.Rounding5.rq_pos']
+NOT_PROVED = list(NOT_PROVED) + ['floating-point rounding of the scalar forms IS proved in the standard model with libm exp/pow of relative error <= u_f (Props/Rounding5): c K <= computed <= K/c with c = e^(-gamma_9 A)(1-u_f)(1-u) (RBF, A = (x-y)^2/(2 l^2)) resp. ((1-u)^11)^alpha (1-u_f)(1-u) (RQ), and computed > 0; the matrix forms and k <= var are oracle only']
